@@ -208,6 +208,9 @@ package trie
 //@   ensures qr.isInner == 1 ==> int(qr.wordSize) == ite(int(qr.ithInner) < nB(st), 8, 4)
 //@   ensures qr.isInner == 1 ==> qr.hasLeafPrefix == old(qr.hasLeafPrefix)
 //@   ensures qr.isInner == 1 ==> qr.hasInnerPrefix == (has_step(st, int(qr.ithInner)) && st.inner.InnerPrefixes.PositionBM != nil)
+//@   use W_hasip_def(st, rank1(NTW(st), nodeId))
+//@   use W_step_def(st, rank1(NTW(st), nodeId))
+//@   ensures qr.isInner == 1 ==> qr.hasInnerPrefix == W_hasip(st, int(qr.ithInner)) && int(qr.innerPrefixLen) == W_step(st, int(qr.ithInner))
 //@   ensures qr.isInner == 1 && !has_step(st, int(qr.ithInner)) ==> qr.innerPrefixLen == 0
 //@   ensures qr.isInner == 1 && !qr.hasInnerPrefix ==> 0 <= qr.innerPrefixLen && qr.innerPrefixLen <= 262140 && qr.innerPrefixLen%4 == 0
 //@   ensures qr.isInner == 1 && has_step(st, int(qr.ithInner)) && st.inner.InnerPrefixes.PositionBM == nil ==>
@@ -259,6 +262,10 @@ package trie
 //@   ensures int(qr.wordSize) == ite(int(ithInner) < nB(st), 8, 4)
 //@   ensures is_short(st, int(ithInner)) ==> qr.bm == shortbm(st, int(ithInner))
 
+// is_node(st, qr): the query session holds the layout of inner node qr.ithInner (what getNode leaves behind)
+//@ define is_node(st *SlimTrie, qr *querySession) = 0 <= qr.ithInner && int(qr.ithInner) < nI(st) && int(qr.from) == from_of(st, int(qr.ithInner))
+//@     && int(qr.to) == int(qr.from) + size_of(st, int(qr.ithInner)) && int(qr.wordSize) == W_wsz(st, int(qr.ithInner))
+//@     && (is_short(st, int(qr.ithInner)) ==> qr.bm == shortbm(st, int(qr.ithInner))) && int(qr.keyBitLen) == 8*len(qr.key)
 //@ func (*SlimTrie).getLeftChildID
 //@   property C01 C02 C03 C09 C10
 //@   requires wf_core(st) && qr != nil && keyBitIdx >= 0 && int(qr.keyBitLen) == 8*len(qr.key)
@@ -273,6 +280,11 @@ package trie
 //@   ensures 0 <= labelidx(qr.key, int(qr.keyBitLen), int(qr.wordSize), int(keyBitIdx))
 //@   ensures int(qr.to - qr.from) != nS(st) ==> int(qr.from) + labelidx(qr.key, int(qr.keyBitLen), int(qr.wordSize), int(keyBitIdx)) < int(qr.to)
 //@   ensures int(qr.to - qr.from) == nS(st) ==> labelidx(qr.key, int(qr.keyBitLen), int(qr.wordSize), int(keyBitIdx)) <= 16
+//@   use W_child_def(st, qr.key, int(qr.ithInner), int(keyBitIdx))
+//@   use at(qr.ithInner)
+//@   before "r0, _ := bitmap.Rank128(" assert is_node(st, qr) ==> is_short(st, int(qr.ithInner))
+//@   before "return bitmap.Rank128(" assert is_node(st, qr) ==> !is_short(st, int(qr.ithInner))
+//@   ensures is_node(st, qr) ==> int(result0) == W_lch(st, qr.key, int(qr.ithInner), int(keyBitIdx)) && int(result1) == W_has(st, qr.key, int(qr.ithInner), int(keyBitIdx))
 
 //@ func (*SlimTrie).getLeaf
 //@   property C01 C10
@@ -301,29 +313,81 @@ package trie
 // lemmaGetIDSearchAgree. walk is an uninterpreted function with the tail-recursive defining equation walk_def (a
 // tail-recursive equation always has a model, so the axiom cannot introduce an inconsistency).
 //@ define W_k(st *SlimTrie, t int) = rank1(st.inner.InnerPrefixes.PresenceBM.Words, t)
-//@ define W_hasip(st *SlimTrie, t int) = has_step(st, t) && st.inner.InnerPrefixes.PositionBM != nil
 //@ define W_ipb(st *SlimTrie, t int) = st.inner.InnerPrefixes.Bytes[select1(st.inner.InnerPrefixes.PositionBM.Words, W_k(st, t)) : select1(st.inner.InnerPrefixes.PositionBM.Words, W_k(st, t) + 1)]
-//@ define W_step(st *SlimTrie, t int) = ite(!has_step(st, t), 0, ite(st.inner.InnerPrefixes.PositionBM == nil, decstep(st.inner.InnerPrefixes.Bytes, 2*W_k(st, t)), bitstr_len(W_ipb(st, t))))
-//@ define W_i1(st *SlimTrie, t int, i int) = ite(W_hasip(st, t), i - i%8 + W_step(st, t), i + W_step(st, t))
 //@ define W_wsz(st *SlimTrie, t int) = ite(t < nB(st), 8, 4)
 //@ define W_lbl(st *SlimTrie, key string, t int, i1 int) = labelidx(key, 8*len(key), W_wsz(st, t), i1)
-//@ define W_has(st *SlimTrie, key string, t int, i1 int) = ite(is_short(st, t), bitof(shortbm(st, t), W_lbl(st, key, t, i1)), bitat(INW(st), from_of(st, t) + W_lbl(st, key, t, i1)))
-//@ define W_lch(st *SlimTrie, key string, t int, i1 int) = ite(is_short(st, t), rank1(INW(st), from_of(st, t)) + popcnt64(shortbm(st, t) & mask(W_lbl(st, key, t, i1))), rank1(INW(st), from_of(st, t) + W_lbl(st, key, t, i1)))
-// the stored tail of leaf ordinal lf equals the rest of the key from bit i (a leaf without a stored tail matches only the exhausted key)
-//@ define W_tailok(st *SlimTrie, key string, lf int, i int) = st.inner.LeafPrefixes == nil || ite(has_tail(st, lf),
-//@     len(key) - i/8 == tail_hi(st, lf) - tail_lo(st, lf) && forall(j, 0, tail_hi(st, lf) - tail_lo(st, lf), key[i/8 + j] == st.inner.LeafPrefixes.Bytes[tail_lo(st, lf) + j]),
-//@     len(key) == i/8)
+// The pieces of one descent step are uninterpreted functions with definitional lemmas: getNode / getLeftChildID prove
+// (locally, where the layout facts are at hand) that what they load equals these functions; the loops of GetID and
+// searchID then reason about them by congruence only.
+// W_hasip: inner node t stores prefix content; W_step: number of key bits skipped before its label;
+// W_ipm: the stored prefix content matches the key at bit i; W_has / W_lch: branch bit and left-child id for the label at i1
+//@ spec W_hasip(st *SlimTrie, t int) bool
+//@ lemma W_hasip_def(st *SlimTrie, t int)
+//@   ensures W_hasip(st, t) == (has_step(st, t) && st.inner.InnerPrefixes.PositionBM != nil)
+//@   proof definition
+//@ spec W_step(st *SlimTrie, t int) int
+//@ lemma W_step_def(st *SlimTrie, t int)
+//@   ensures W_step(st, t) == ite(!has_step(st, t), 0, ite(st.inner.InnerPrefixes.PositionBM == nil, decstep(st.inner.InnerPrefixes.Bytes, 2*W_k(st, t)), bitstr_len(W_ipb(st, t))))
+//@   proof definition
 //@ spec cmpupto(a string, b []byte) int
+//@ spec W_ipm(st *SlimTrie, key string, t int, i int) bool
+//@ lemma W_ipm_def(st *SlimTrie, key string, t int, i int)
+//@   ensures W_ipm(st, key, t, i) == (cmpupto(key[i/8:], W_ipb(st, t)) == 0)
+//@   proof definition
+//@ spec W_has(st *SlimTrie, key string, t int, i1 int) int
+//@ spec W_lch(st *SlimTrie, key string, t int, i1 int) int
+//@ lemma W_child_def(st *SlimTrie, key string, t int, i1 int)
+//@   ensures W_has(st, key, t, i1) == ite(is_short(st, t), bitof(shortbm(st, t), W_lbl(st, key, t, i1)), bitat(INW(st), from_of(st, t) + W_lbl(st, key, t, i1)))
+//@   ensures W_lch(st, key, t, i1) == ite(is_short(st, t), rank1(INW(st), from_of(st, t)) + popcnt64(shortbm(st, t) & mask(W_lbl(st, key, t, i1))), rank1(INW(st), from_of(st, t) + W_lbl(st, key, t, i1)))
+//@   proof definition
+//@ define W_i1(st *SlimTrie, t int, i int) = ite(W_hasip(st, t), i - i%8 + W_step(st, t), i + W_step(st, t))
+// the stored tail of leaf ordinal lf equals the rest of the key from bit i (a leaf without a stored tail matches only the
+// exhausted key); "equals" is bytes.Compare(...) == 0, named by the by-content spec function bytes_cmp of the assumed
+// standard-library contract
+//@ spec W_tailok(st *SlimTrie, key string, lf int, i int) bool
+//@ lemma W_tailok_def(st *SlimTrie, key string, lf int, i int)
+//@   ensures W_tailok(st, key, lf, i) == (st.inner.LeafPrefixes == nil || ite(has_tail(st, lf),
+//@     len(key) - i/8 == tail_hi(st, lf) - tail_lo(st, lf) && bytes_cmp(bytesof(key[i/8:]), st.inner.LeafPrefixes.Bytes[tail_lo(st, lf):tail_hi(st, lf)]) == 0,
+//@     len(key) == i/8))
+//@   proof definition
 //@ spec walk(st *SlimTrie, key string, id int, i int) int
 //@ lemma walk_def(st *SlimTrie, key string, id int, i int)
 //@   ensures walk(st, key, id, i) == ite(bitat(NTW(st), id) == 0,
 //@       ite(i <= 8*len(key) && W_tailok(st, key, leaf_ord(st, id), i), id, -1),
-//@       ite(W_hasip(st, rank1(NTW(st), id)) && cmpupto(key[i/8:], W_ipb(st, rank1(NTW(st), id))) != 0, -1,
+//@       ite(W_hasip(st, rank1(NTW(st), id)) && !W_ipm(st, key, rank1(NTW(st), id), i), -1,
 //@       ite(W_i1(st, rank1(NTW(st), id), i) > 8*len(key), -1,
 //@       ite(W_has(st, key, rank1(NTW(st), id), W_i1(st, rank1(NTW(st), id), i)) == 0, -1,
 //@       ite(W_i1(st, rank1(NTW(st), id), i) == 8*len(key), W_lch(st, key, rank1(NTW(st), id), W_i1(st, rank1(NTW(st), id), i)) + 1,
 //@           walk(st, key, W_lch(st, key, rank1(NTW(st), id), W_i1(st, rank1(NTW(st), id), i)) + 1, W_i1(st, rank1(NTW(st), id), i) + W_wsz(st, rank1(NTW(st), id))))))))
 //@   proof definition
+
+// the cases of walk_def as separate lemmas (each proved once from walk_def in isolation; the descent loops use these and
+// never unfold walk_def themselves)
+//@ lemma walk_leaf(st *SlimTrie, key string, id int, i int)
+//@   requires bitat(NTW(st), id) == 0
+//@   ensures walk(st, key, id, i) == ite(i <= 8*len(key) && W_tailok(st, key, leaf_ord(st, id), i), id, -1)
+//@   proof auto using walk_def(st, key, id, i)
+//@ lemma walk_nomatch(st *SlimTrie, key string, id int, i int, t int)
+//@   requires bitat(NTW(st), id) == 1 && rank1(NTW(st), id) == t && W_hasip(st, t) && !W_ipm(st, key, t, i)
+//@   ensures walk(st, key, id, i) == -1
+//@   proof auto using walk_def(st, key, id, i)
+//@ lemma walk_short(st *SlimTrie, key string, id int, i int, t int, i1 int)
+//@   requires bitat(NTW(st), id) == 1 && rank1(NTW(st), id) == t && !(W_hasip(st, t) && !W_ipm(st, key, t, i)) && i1 == W_i1(st, t, i) && i1 > 8*len(key)
+//@   ensures walk(st, key, id, i) == -1
+//@   proof auto using walk_def(st, key, id, i)
+//@ lemma walk_nobranch(st *SlimTrie, key string, id int, i int, t int, i1 int)
+//@   requires bitat(NTW(st), id) == 1 && rank1(NTW(st), id) == t && !(W_hasip(st, t) && !W_ipm(st, key, t, i)) && i1 == W_i1(st, t, i) && i1 <= 8*len(key) && W_has(st, key, t, i1) == 0
+//@   ensures walk(st, key, id, i) == -1
+//@   proof auto using walk_def(st, key, id, i)
+//@ lemma walk_end(st *SlimTrie, key string, id int, i int, t int, i1 int)
+//@   requires bitat(NTW(st), id) == 1 && rank1(NTW(st), id) == t && !(W_hasip(st, t) && !W_ipm(st, key, t, i)) && i1 == W_i1(st, t, i) && i1 == 8*len(key) && W_has(st, key, t, i1) != 0
+//@   ensures walk(st, key, id, i) == W_lch(st, key, t, i1) + 1
+//@   proof auto using walk_def(st, key, id, i)
+//@ lemma walk_step(st *SlimTrie, key string, id int, i int, t int, i1 int, ch int, w int)
+//@   requires bitat(NTW(st), id) == 1 && rank1(NTW(st), id) == t && !(W_hasip(st, t) && !W_ipm(st, key, t, i)) && i1 == W_i1(st, t, i) && i1 < 8*len(key) && W_has(st, key, t, i1) != 0
+//@   requires ch == W_lch(st, key, t, i1) + 1 && w == W_wsz(st, t)
+//@   ensures walk(st, key, id, i) == walk(st, key, ch, i1 + w)
+//@   proof auto using walk_def(st, key, id, i)
 
 //@ func strCmpUpto
 //@   property C01 C03 C10
@@ -332,18 +396,74 @@ package trie
 //@   ensures result == 0 ==> len(a) >= len(b) - 1
 //@   defines result == cmpupto(a, b)
 
+// node_facts: what the tree clauses of wf(st) say about inner node t, stated over the layout functions — proved once,
+// in isolation, and instantiated by the descent loops after getNode (which keep wf_tree opaque)
+//@ define FC(st *SlimTrie, t int) = rank1(INW(st), from_of(st, t))
+//@ lemma node_facts(st *SlimTrie, t int)
+//@   requires st != nil && st.inner != nil && st.inner.NodeTypeBM != nil && wf_core(st) && wf_tree(st) && 0 <= t && t < nI(st)
+//@   ensures FC(st, t) + 1 < nN(st)
+//@   ensures is_short(st, t) ==> FC(st, t) + popcnt64(shortbm(st, t)) < nN(st)
+//@   ensures ite(is_short(st, t), bitof(shortbm(st, t), 0), bitat(INW(st), from_of(st, t))) == 1 ==> bitat(NTW(st), FC(st, t) + 1) == 0
+//@   ensures rank1(INW(st), from_of(st, t) + size_of(st, t) - 1) + bitat(INW(st), from_of(st, t) + size_of(st, t) - 1) > FC(st, t)
+//@   ensures 1 <= nN(st) && nN(st) <= 1073741824 && 0 <= nS(st) && nS(st) <= 10 && 0 <= nB(st) && len(INW(st)) <= 16777216
+//@   ensures (size_of(st, t) == nS(st)) == is_short(st, t) && (is_short(st, t) ==> nS(st) >= 1 && t >= nB(st))
+//@   proof auto using at(t)
+//@ lemma core_facts(st *SlimTrie)
+//@   requires st != nil && st.inner != nil && st.inner.NodeTypeBM != nil && wf_core(st)
+//@   ensures 1 <= nN(st) && nN(st) <= 1073741824 && 0 <= nS(st) && nS(st) <= 10 && 0 <= nB(st) && len(INW(st)) <= 16777216 && nI(st) <= 33554432 && nB(st) <= nI(st)
+//@   proof auto
+//@ lemma tail_facts(st *SlimTrie, lf int)
+//@   requires st != nil && st.inner != nil && st.inner.NodeTypeBM != nil && wf_core(st) && wf_lprefix(st) && st.inner.LeafPrefixes != nil && 0 <= lf && lf < nL(st) && has_tail(st, lf)
+//@   ensures 0 <= tail_lo(st, lf) && tail_lo(st, lf) < tail_hi(st, lf) && tail_hi(st, lf) <= len(st.inner.LeafPrefixes.Bytes)
+//@   proof auto using rank1_le_ones(LPP(st), lf); rank1_range(LPP(st), lf); at(rank1(LPP(st), lf), rank1(LPP(st), lf) + 1)
+//@ lemma node_parent(st *SlimTrie, id int)
+//@   requires st != nil && st.inner != nil && st.inner.NodeTypeBM != nil && wf_core(st) && wf_tree(st) && 0 <= id && id < nN(st) && bitat(NTW(st), id) == 1
+//@   ensures FC(st, rank1(NTW(st), id)) >= id
+//@   proof auto using at(id)
+
 //@ spec getid(st *SlimTrie, key string) int32
 
 //@ func (*SlimTrie).GetID
 //@   property C01 C03 C10 C14
-//@   opaque wf_iprefix wf_lprefix
+//@   opaque wf_iprefix wf_lprefix wf_tree wf_core
 //@   requires wf_query(st) && len(key) <= 100000000
+//@   before "l := int32(8 * len(key))" use core_facts(st)
 //@   loop 1 invariant 0 <= eqID && int(eqID) < nN(st)
-//@   loop 1 invariant 0 <= i && i <= l + 4
+//@   loop 1 invariant 0 <= i && i <= l
 //@   loop 1 invariant i%4 == 0
 //@   loop 1 invariant qr != nil && qr.key == key && qr.keyBitLen == l && int(l) == 8*len(key)
+//@   loop 1 invariant !qr.hasLeafPrefix
+//@   loop 1 invariant rank1(NTW(st), eqID) < nB(st) ==> i%8 == 0
+//@   loop 1 invariant walk(st, key, 0, 0) == walk(st, key, int(eqID), int(i))
 //@   loop 1 decreases nN(st) - int(eqID)
-//@   after getNode#1 use at(qr.ithInner, eqID)
+//@   after getLeftChildID#1 use rank1_step(NTW(st), int(eqID))
+//@   after getLeftChildID#1 use rank1_mono(NTW(st), int(eqID) + 1, int(result0) + 1)
+//@   after strCmpUpto#1 assert sameslice(qr.innerPrefix, W_ipb(st, int(qr.ithInner)))
+//@   after strCmpUpto#1 use W_ipm_def(st, key, int(qr.ithInner), int(i))
+//@   after strCmpUpto#1 assert (result == 0) == W_ipm(st, key, int(qr.ithInner), int(i))
+//@   after getLeftChildID#1 assert is_node(st, qr)
+//@   after getLeftChildID#1 use align_sum(athead(1, int(i)), int(qr.innerPrefixLen))
+//@   at "i += qr.wordSize" use align_step(int(i) - int(qr.wordSize), int(l), int(qr.wordSize))
+//@   after getNode#1 use node_facts(st, int(qr.ithInner))
+//@   after getNode#1 use walk_leaf(st, key, int(eqID), int(i))
+//@   after getNode#1 use tail_facts(st, leaf_ord(st, int(eqID)))
+//@   after getNode#1 use W_tailok_def(st, key, leaf_ord(st, int(eqID)), int(i))
+//@   after getNode#1 use walk_nomatch(st, key, int(eqID), int(i), int(qr.ithInner))
+//@   after getNode#1 use walk_short(st, key, int(eqID), int(i), int(qr.ithInner), W_i1(st, int(qr.ithInner), int(i)))
+//@   after getNode#1 use walk_nobranch(st, key, int(eqID), int(i), int(qr.ithInner), W_i1(st, int(qr.ithInner), int(i)))
+//@   after getNode#1 use walk_end(st, key, int(eqID), int(i), int(qr.ithInner), W_i1(st, int(qr.ithInner), int(i)))
+//@   after getNode#1 assert qr.isInner == 1 ==> bitat(NTW(st), eqID) == 1 && rank1(NTW(st), eqID) == int(qr.ithInner)
+//@   after getLeftChildID#1 assert int(i) == W_i1(st, int(qr.ithInner), athead(1, int(i)))
+//@   after getLeftChildID#1 assert !(W_hasip(st, int(qr.ithInner)) && !W_ipm(st, key, int(qr.ithInner), athead(1, int(i))))
+//@   after getLeftChildID#1 assert int(result1) == W_has(st, key, int(qr.ithInner), int(i)) && int(result0) == W_lch(st, key, int(qr.ithInner), int(i)) && int(qr.wordSize) == W_wsz(st, int(qr.ithInner))
+//@   after getLeftChildID#1 use walk_step(st, key, athead(1, int(eqID)), athead(1, int(i)), int(qr.ithInner), int(i), int(result0) + 1, int(qr.wordSize))
+//@   after Equal#1 assert int(i) == athead(1, int(i)) && int(eqID) == athead(1, int(eqID)) && qr.isInner == 0
+//@   after Equal#1 assert st.inner.LeafPrefixes != nil && has_tail(st, athead(1, leaf_ord(st, int(eqID))))
+//@   after Equal#1 assert sameslice(qr.leafPrefix, st.inner.LeafPrefixes.Bytes[tail_lo(st, athead(1, leaf_ord(st, int(eqID)))):tail_hi(st, athead(1, leaf_ord(st, int(eqID))))])
+//@   after Equal#1 assert result ==> len(key) - athead(1, int(i))/8 == tail_hi(st, athead(1, leaf_ord(st, int(eqID)))) - tail_lo(st, athead(1, leaf_ord(st, int(eqID))))
+//@   after Equal#1 assert result == (bytes_cmp(bytesof(key[athead(1, int(i))/8:]), st.inner.LeafPrefixes.Bytes[tail_lo(st, athead(1, leaf_ord(st, int(eqID)))):tail_hi(st, athead(1, leaf_ord(st, int(eqID))))]) == 0)
+//@   after Equal#1 assert result == W_tailok(st, key, athead(1, leaf_ord(st, int(eqID))), athead(1, int(i)))
+//@   after getNode#1 use node_parent(st, int(eqID))
 //@   after getNode#1 assert qr.isInner == 1 ==> rank1(INW(st), qr.from) >= int(eqID)
 //@   after getNode#1 assert qr.isInner == 1 && is_short(st, int(qr.ithInner)) ==> rank1(INW(st), qr.from) + popcnt64(qr.bm) < nN(st)
 //@   after getNode#1 assert qr.isInner == 1 && ite(is_short(st, int(qr.ithInner)), bitof(qr.bm, 0), bitat(INW(st), qr.from)) == 1 ==> bitat(NTW(st), rank1(INW(st), qr.from) + 1) == 0
@@ -368,6 +488,7 @@ package trie
 //@   before "if st.inner.LeafPrefixes != nil {" assert bitat(NTW(st), eqID) == 0 && 0 <= eqID && int(eqID) < nN(st)
 //@   ensures st.inner.NodeTypeBM == nil ==> result == -1
 //@   ensures result == -1 || (0 <= result && int(result) < nN(st) && bitat(NTW(st), result) == 0)
+//@   ensures st.inner.NodeTypeBM != nil ==> int(result) == walk(st, key, 0, 0)
 //@   defines result == getid(st, key)
 
 //@ func (*SlimTrie).Get
